@@ -4,7 +4,8 @@ CONSTANTS
   ExtraNew <- ExtraNewThorough
   PropSet <- PropSetThorough
   UnitLimit = 30
-  ActLimit = 64
+  ActLimit = 25
+  GrowLimit = 12
 SPECIFICATION Spec
 CHECK_DEADLOCK FALSE
 INVARIANT TypeOK
